@@ -68,7 +68,10 @@ package storage
 //@ trusted pure func (ObjectInfo) Path() (r)
 //@ trusted pure func (ObjectInfo) ExternalPath() (r)
 //@ trusted pure func (ObjectInfo) LocalPath() (r)
-//@ trusted pure func PutWithAtomic() (r)
+// (ca-D2: no longer trusted - the body is trivial; closure 0 is the returned option: it requests atomicity and nothing else)
+//@ pure func PutWithAtomic() (r)
+//@   property C15
+//@   closure 0 ensures requests-atomicity: putOptions.atomic && putOptions.suggestedChunkSize == old(putOptions.suggestedChunkSize)
 //
 // ---- copy.go (C15): a failing sink is always reported
 //
@@ -79,6 +82,10 @@ package storage
 //@   modifies ghost.fail, ghost.wfail, ghost.sinkPaths, ghost.sinkBuckets, ghost.lastPutOptions
 //@   ensures  reported: ghost.fail && !old(ghost.fail) ==> retErr != nil
 //@   ensures  write-reported: ghost.wfail && !old(ghost.wfail) ==> retErr != nil
+// (ca-D2) exactly one Put, of exactly toPath on exactly the destination bucket; the atomicity request reaches that Put
+// as the single option PutWithAtomic() and is absent otherwise (C15: "copying ... atomic puts")
+//@   ensures exact-put {C13}: ghost.sinkPaths == add(old(ghost.sinkPaths), toPath) && ghost.sinkBuckets == add(old(ghost.sinkBuckets), to)
+//@   ensures atomic-forwarded: (atomic ==> len(ghost.lastPutOptions) == 1 && ghost.lastPutOptions[0] == PutWithAtomic()) && (!atomic ==> isNilSlice(ghost.lastPutOptions))
 //@   canary ensures retErr == nil
 //
 //@ func copyPath(ctx, from, fromPath, to, toPath, copyExternalAndLocalPaths, atomic) (retErr)
@@ -86,6 +93,12 @@ package storage
 //@   modifies ghost.fail, ghost.wfail, ghost.sinkPaths, ghost.sinkBuckets, ghost.lastPutOptions
 //@   ensures  reported: ghost.fail && !old(ghost.fail) ==> retErr != nil
 //@   ensures  write-reported: ghost.wfail && !old(ghost.wfail) ==> retErr != nil
+// (ca-D2) the source is read at exactly fromPath, and nothing is put when that Get fails; the only other sink call is
+// the Put of toPath on the destination
+//@   ensures exact-paths {C13}: forall q string :: q in ghost.sinkPaths && !(q in old(ghost.sinkPaths)) ==> q == fromPath || q == toPath
+//@   ensures exact-buckets {C13}: forall b ref :: b in ghost.sinkBuckets && !(b in old(ghost.sinkBuckets)) ==> b == from || b == to
+//@   ensures source-read: fromPath in ghost.sinkPaths && from in ghost.sinkBuckets
+//@   ensures copied-means-put: retErr == nil ==> toPath in ghost.sinkPaths && to in ghost.sinkBuckets && (atomic ==> len(ghost.lastPutOptions) == 1 && ghost.lastPutOptions[0] == PutWithAtomic()) && (!atomic ==> isNilSlice(ghost.lastPutOptions))
 //@   canary ensures retErr == nil
 //
 //@ func CopyReader(ctx, writeBucket, reader, path) (retErr)
@@ -93,6 +106,9 @@ package storage
 //@   modifies ghost.fail, ghost.wfail, ghost.sinkPaths, ghost.sinkBuckets, ghost.lastPutOptions
 //@   ensures  reported: ghost.fail && !old(ghost.fail) ==> retErr != nil
 //@   ensures  write-reported: ghost.wfail && !old(ghost.wfail) ==> retErr != nil
+// (ca-D2) exactly one (plain) Put, of exactly this path on exactly this bucket
+//@   ensures exact-put {C13}: ghost.sinkPaths == add(old(ghost.sinkPaths), path) && ghost.sinkBuckets == add(old(ghost.sinkBuckets), writeBucket)
+//@   ensures plain-put: isNilSlice(ghost.lastPutOptions)
 //@   canary ensures retErr == nil
 //
 //@ func CopyReadObject(ctx, writeBucket, readObject, options) (retErr)
@@ -102,6 +118,9 @@ package storage
 //@   ensures  write-reported: ghost.wfail && !old(ghost.wfail) ==> retErr != nil
 //@   loop 0 invariant ghost.fail ==> old(ghost.fail)
 //@   loop 0 invariant ghost.wfail ==> old(ghost.wfail)
+// (ca-D2) the object is put at exactly its own path, on exactly the given bucket
+//@   ensures exact-put {C13}: ghost.sinkPaths == add(old(ghost.sinkPaths), readObject.Path()) && ghost.sinkBuckets == add(old(ghost.sinkBuckets), writeBucket)
+//@   loop 0 invariant ghost.sinkPaths == old(ghost.sinkPaths) && ghost.sinkBuckets == old(ghost.sinkBuckets)
 //
 //@ func CopyPath(ctx, from, fromPath, to, toPath, options) (err)
 //@   property C15
@@ -110,6 +129,11 @@ package storage
 //@   ensures  write-reported: ghost.wfail && !old(ghost.wfail) ==> err != nil
 //@   loop 0 invariant ghost.fail ==> old(ghost.fail)
 //@   loop 0 invariant ghost.wfail ==> old(ghost.wfail)
+// (ca-D2) only the two named paths of the two named buckets are touched; success means the destination was put
+//@   ensures exact-paths {C13}: forall q string :: q in ghost.sinkPaths && !(q in old(ghost.sinkPaths)) ==> q == fromPath || q == toPath
+//@   ensures exact-buckets {C13}: forall b ref :: b in ghost.sinkBuckets && !(b in old(ghost.sinkBuckets)) ==> b == from || b == to
+//@   ensures copied-means-put: err == nil ==> toPath in ghost.sinkPaths && to in ghost.sinkBuckets && fromPath in ghost.sinkPaths && from in ghost.sinkBuckets
+//@   loop 0 invariant ghost.sinkPaths == old(ghost.sinkPaths) && ghost.sinkBuckets == old(ghost.sinkBuckets)
 //
 //@ func Copy(ctx, from, to, options) (n, err)
 //@   property C15
@@ -147,6 +171,11 @@ package storage
 //@   ensures  write-reported: ghost.wfail && !old(ghost.wfail) ==> err != nil
 //@   closure 0 invariant ghost.fail ==> old(ghost.fail)
 //@   closure 0 invariant ghost.wfail ==> old(ghost.wfail)
+// (ca-D2) C14: one walk of exactly this prefix on exactly this bucket; "the returned paths are sorted"; nothing on failure
+//@   ensures walks-this-prefix {C14}: ghost.sinkPaths == add(old(ghost.sinkPaths), prefix) && ghost.sinkBuckets == add(old(ghost.sinkBuckets), readBucket)
+//@   ensures sorted {C14}: err == nil ==> (forall a int, b int :: 0 <= a && a < b && b < len(r) ==> r[a] <= r[b])
+//@   ensures failure-yields-nothing {C14}: err != nil ==> len(r) == 0
+//@   closure 0 invariant ghost.sinkPaths == add(old(ghost.sinkPaths), prefix) && ghost.sinkBuckets == add(old(ghost.sinkBuckets), readBucket)
 //
 //@ func ReadPath(ctx, readBucket, path) (data, retErr)
 //@   property C15 C09
@@ -174,12 +203,16 @@ package storage
 //@   modifies ghost.fail, ghost.wfail, ghost.sinkPaths, ghost.sinkBuckets, ghost.lastPutOptions, heap
 //@   ensures  reported: ghost.fail && !old(ghost.fail) ==> retErr != nil
 //@   ensures  write-reported: ghost.wfail && !old(ghost.wfail) ==> retErr != nil
+// (ca-D2) the object handed to f is the one at exactly this path of exactly this bucket
+//@   ensures gets-this-path {C13}: path in ghost.sinkPaths && readBucket in ghost.sinkBuckets
 //
 //@ func ForWriteObject(ctx, writeBucket, path, f, options) (retErr)
 //@   property C15
 //@   modifies ghost.fail, ghost.wfail, ghost.sinkPaths, ghost.sinkBuckets, ghost.lastPutOptions, heap
 //@   ensures  reported: ghost.fail && !old(ghost.fail) ==> retErr != nil
 //@   ensures  write-reported: ghost.wfail && !old(ghost.wfail) ==> retErr != nil
+// (ca-D2) the object handed to f is a put of exactly this path on exactly this bucket
+//@   ensures puts-this-path {C13}: path in ghost.sinkPaths && writeBucket in ghost.sinkBuckets
 //
 //@ func WalkReadObjects(ctx, readBucket, prefix, f) (err)
 //@   property C15
@@ -188,6 +221,11 @@ package storage
 //@   ensures  write-reported: ghost.wfail && !old(ghost.wfail) ==> err != nil
 //@   closure 0 invariant ghost.fail ==> old(ghost.fail)
 //@   closure 0 invariant ghost.wfail ==> old(ghost.wfail)
+// (ca-D2) C14: this prefix of this bucket is walked, and every object is read from the SAME bucket (no other bucket is touched)
+//@   ensures walks-this-prefix {C14}: prefix in ghost.sinkPaths
+//@   ensures only-this-bucket {C14}: forall b ref :: b in ghost.sinkBuckets && !(b in old(ghost.sinkBuckets)) ==> b == readBucket
+//@   closure 0 invariant prefix in ghost.sinkPaths
+//@   closure 0 invariant forall b ref :: b in ghost.sinkBuckets && !(b in old(ghost.sinkBuckets)) ==> b == readBucket
 //
 // ---- mapper.go / map.go (C13, C14): a mapped view hands its delegate only paths inside the mapper's root
 //
